@@ -117,6 +117,25 @@ pub fn parse_header(header: &str, config: &Config) -> Result<String> {
 
     let header = &strip_maybe_uninit(header);
 
+    // `RustMaybeUninit` is created out of cbindgen's `MaybeUninit` forward declaration, and the
+    // container types depend on it. Supply the declaration if the input has no use of `MaybeUninit`.
+    let header = &if header.contains("struct MaybeUninit;") {
+        header.to_string()
+    } else {
+        Regex::new(
+            r"(?P<start>(/\*[^*]*\*+(?:[^/*][^*]*\*+)*/
+)?template<typename)",
+        )?
+        .replace(
+            header,
+            r"template<typename T = void>
+struct MaybeUninit;
+
+$start",
+        )
+        .to_string()
+    };
+
     // COLLECTION:
 
     // Collect zsized ret tmps
